@@ -17,6 +17,7 @@ import fullrun as FR
 import implutil as U
 
 STATIC = ["Model/Views.vo"]
+EXTRA_PROPS = ["C04b"]
 IMPORTS = "From SSP Require Import Model.Sev Model.Views."
 
 
